@@ -51,7 +51,7 @@ CHECKS = {
         category="model_checking",
         technique="explicit-state BFS over bridge transactions with deposit/withdrawal-event oracles",
         text=("T-level search over the bridge alphabet from a state with locked funds and a used event id (depth 5, thorough 8): "
-              "the deposits a transaction publishes must be exactly its executed locks / bridge transfers (whose credit to the "
+              "the deposits a transaction publishes must be exactly its executed locks / bridge transfers in bridge, amount, destination, the bridge's rollup id and asset, transaction id and action index (whose credit to the "
               "bridge account is checked by the C01 movement reference), a withdrawal event id already recorded for the bridge is "
               "never honoured again by unlock or bridge transfer, and every honoured id is recorded."),
         note=TL_NOTE + " Stage ibc adds bridge Ics20Withdrawal / unlock event-id reuse on a chain with an open IBC channel.",
@@ -240,7 +240,7 @@ CHECKS = {
     "C18": dict(
         category="model_checking",
         technique="explicit-state BFS over real Ics20Withdrawal transactions and the real Ics20Transfer packet handlers with a reference escrow ledger",
-        text=("BFS over every sequence of <= 3 (thorough 5) events from 19 (thorough 26) outgoing / incoming ICS-20 events on forks of "
+        text=("BFS over every sequence of <= 3 (thorough 5) events from 21 (thorough 28) outgoing / incoming ICS-20 events on forks of "
               "a real block state with open channels, connection and client: withdrawals (native asset in trace and ibc/ form, two "
               "channels, from a bridge with an event id, foreign asset) through the real transaction path; incoming packets (returning "
               "and foreign assets, plain and bridge recipients, good/bad memos, amounts above the escrow), error acks and timeouts of "
